@@ -240,7 +240,14 @@ def run_chunk(idx, scens, timeout):
     impl = impl[:len(flat)]
     # nondeterministic background events observed by the implementation are handed to the model as
     # annotations; the model checks that they were enabled
-    minput = [l + (' @switched' if o.endswith(' switched') else '') for l, o in zip(flat, impl)]
+    def annotate(l, o):
+        if o.endswith(' switched'):
+            return l + ' @switched'
+        if l == 'indexsum' and o.startswith('#indexsum'):
+            ms = [':'.join([t.split(':')[0], t.split(':')[2]]) for t in o.split()[1:] if t.count(':') == 3]
+            return l + ' @meta=' + ','.join(ms) if ms else l
+        return l
+    minput = [annotate(l, o) for l, o in zip(flat, impl)]
     rc2, mout = sh([MODEL_BIN], input=('\n'.join(minput) + '\n').encode(), timeout=600)
     model = mout.splitlines()
     if len(model) < len(flat):
@@ -309,14 +316,20 @@ class Finding:
 def judge(res, pdef):
     """classify one scenario result for a property definition"""
     findings = []
+    nomodel = False
     for i, (cmd, impl, model, orc) in enumerate(zip(res['script'], res['impl'], res['model'], res['oracle'])):
         c = cmd_of(cmd)
+        if c == 'nomodel':
+            nomodel = True
+            continue
         is_p = c in pdef['p_cmds']
         orc_applies = c in pdef.get('oracle_cmds', ())
         pyor = pdef.get('py_oracle')
         verdict = None
         if orc_applies and orc.startswith('MISMATCH'):
             verdict = orc
+            if nomodel and pdef.get('tolerate_err_after_damage') and impl.startswith(('err ', 'list')) and 'err ' in impl:
+                verdict = None     # after injected damage a read may fail; it must not return wrong data
         if verdict is None and pyor:
             verdict = pyor(res, i)
         if impl.startswith('panic') or impl == 'crash' or impl.startswith('skipped') or impl == 'err StepTimeout':
@@ -328,7 +341,7 @@ def judge(res, pdef):
             break
         if c in ('dmgsweep', 'crashsweep', 'flipsweep', 'faultsweep', 'cancelsweep') and impl.startswith('sweep ok'):
             impl = 'sweep ok'      # the count of damaged copies is reported, not compared
-        if impl != model:
+        if impl != model and not nomodel and c not in pdef.get('impl_only_cmds', ()):
             if is_p:
                 findings.append(Finding('model-disagreement', res, i, f'impl=[{impl}] model=[{model}] oracle=[{orc}]'))
             else:
